@@ -566,6 +566,16 @@ func (ex *Exec) sha256Of(in []Value) []Value {
 		if len(bs) == 0 {
 			return
 		}
+		if len(bs) > 4096 {
+			// very long concrete inputs: only the length tag of the (literal)
+			// digest is recorded, which separates it from every digest of a
+			// shorter or longer input
+			d := sha256.Sum256(bs)
+			lit := &Term{"#x" + hex.EncodeToString(d[:]), SBV(256)}
+			tag := UF("shalen", []Sort{SBV(256)}, SBV(32))
+			ex.addPC(Eq(App(tag, SBV(32), lit), BVConst(uint64(len(bs)), 32)))
+			return
+		}
 		d := sha256.Sum256(bs)
 		arg := &Term{"#x" + hex.EncodeToString(bs), SBV(8 * len(bs))}
 		res := ex.shaTerm(len(bs), arg)
